@@ -58,6 +58,8 @@ def gen_path(rng, thorough):
             pts = []
             for _ in range(rng.randint(2, 4)):
                 pts.append((float(rng.randint(-20, 20)), float(rng.randint(-20, 20)), float(rng.randint(-2, 2))))
+            if rng.random() < 0.3:
+                pts.insert(rng.randrange(len(pts) + 1), (0.0, 0.0, 0.0))     # a vertex on the work origin
             els.append((rng.choice(["spline", "polyline"]), pts))
             pos = [Fraction(v) for v in pts[-1]]
         elif k == 10:
@@ -183,7 +185,9 @@ def main():
     run = Run(PID)
     st = standard_proof_phase(run, PID)
     n = 1200 if run.thorough else 150
-    paths = [[("start", (Fraction(10), Fraction(0), Fraction(0))), ("circle", (-10.0, 0.0))],
+    paths = [[("start", (Fraction(0), Fraction(0), Fraction(0))), ("circle", (-7.0, 3.0)), ("move", {0: Fraction(4), 1: Fraction(1)}), ("arc", (0.0, 0.0), (-2.0, -0.5))],
+             [("start", (Fraction(6), Fraction(2), Fraction(1))), ("polyline", [(3.0, 3.0, 1.0), (0.0, 0.0, 0.0), (5.0, 0.0, 0.0)]), ("spline", [(2.0, 4.0, 0.0), (0.0, 0.0, 0.0), (-3.0, 1.0, 0.0)])],
+             [("start", (Fraction(10), Fraction(0), Fraction(0))), ("circle", (-10.0, 0.0))],
              [("start", (Fraction(12), Fraction(0), Fraction(0))), ("ctx", "relative"), ("move_absolute", {1: Fraction(3)}), ("move", {0: Fraction(13)}),
               ("endctx",), ("move", {0: Fraction(20), 1: Fraction(20)})],
              [("start", (Fraction(5), Fraction(5), Fraction(1))), ("parametric", (0.0, 0.0, 6.0, 1.0)), ("move", {0: Fraction(1)})]]
